@@ -11,6 +11,7 @@ import (
 	"github.com/peterstace/simplefeatures/geom"
 
 	"verif/exact"
+	"verif/props/shared"
 	"verif/run"
 )
 
@@ -23,7 +24,7 @@ func init() {
 			"non-trivial = at least two rings/members whose envelopes intersect, or a ring with a self-contact; distinct by the canonical candidate text",
 		Assumptions:      []string{"lattice inputs: the oracle (verif/exact: ring simplicity, <=1 common point per ring pair, containment, nesting, interior connectedness by two independent criteria, member interiors/edges via the arrangement) is exact", "oracle inconsistency between its two connectedness criteria => case skipped and counted"},
 		MinNontrivial:    500,
-		RequiredMonitors: []string{"oracle-vs-validate", "repr-invariance", "simple", "ring-closed", "decoder-gate", "nonfinite"},
+		RequiredMonitors: []string{"oracle-vs-validate", "repr-invariance", "simple", "ring-closed", "decoder-gate", "nonfinite", "concrete-entry"},
 		Run:              runAll,
 	})
 }
@@ -488,6 +489,7 @@ func judge(k *run.K, c candidate, nreps int, allStartsDirs bool) {
 		if k.Lib("nopanic", func() { e = g.Validate() }) {
 			continue
 		}
+		shared.ConcreteAgree(k, g, "concrete-entry", []shared.Call{{Method: "Validate"}, {Method: "IsSimple"}}, nil)
 		k.CheckClass("repr-invariance", class, (e == nil) == (verr == nil), "verdict depends on the representation: %v for %s but %v for %s", verr, g0.AsText(), e, g.AsText())
 		if (e == nil) != v.OK {
 			k.CheckClass("oracle-vs-validate", class, false, "Validate()=%v but the exact oracle says valid=%v (%s): %s", e, v.OK, v.Rule, g.AsText())
